@@ -34,7 +34,9 @@ class qty_loader(object):
         qty = Units.eval_qty(value)
         if not isinstance(qty, Units.Quantity):
             if kind_units is not None:
-                return Units.with_units(qty, kind_units)
+                # Not with_units(): that returns a bare 0 for zero, which
+                # then picks up inverse units when divided by R or R*T.
+                return qty*Units.eval_qty(kind_units)
             else:
                 raise InputDataError(
                     'Cannot determine units of quantity: %r' % qty)
